@@ -13,6 +13,7 @@ static const struct fam FT[] = {{"AC", 3, 5, 0, 4}, {"ACG", 3, 3, 0, 4}, {"AC", 
 static const int DT[] = {KALIGN_TYPE_UNDEFINED, KALIGN_TYPE_DNA, KALIGN_TYPE_DNA_INTERNAL, KALIGN_TYPE_RNA};
 static const int PT[] = {KALIGN_TYPE_UNDEFINED, KALIGN_TYPE_PROTEIN, KALIGN_TYPE_PROTEIN_DIVERGENT};
 #define NMANY 48        /* 20..99-sequence sets built from few distinct sequences */
+#define NLONG 8         /* long duplicated sequence plus shorter relatives at substring edit distance exactly 256 / 512 */
 
 static const struct fam* fams(int tier, int* n)
 {
@@ -33,7 +34,7 @@ uint64_t vh_total(int tier)
         for(i = 0; i < n; i++){
                 t += fsize(&F[i]);
         }
-        return t + NMANY;
+        return t + NMANY + NLONG;
 }
 
 struct dcase { struct kx_set in; int type; int protein; int many; };
@@ -60,6 +61,61 @@ static void decode(uint64_t id, int tier, struct dcase* c)
                         return;
                 }
                 id -= sz;
+        }
+        if(id >= NMANY){
+                /* long sets: A twice (at varying positions) + two shorter relatives whose substring edit distance to A is exactly
+                   target (a multiple of 256), measured by oracle/editdist.h while the relatives are being built */
+                int k = (int)(id - NMANY);
+                int target = (k & 1) ? 512 : 256;
+                int L = (k & 2) ? 1400 : 1000;
+                int layout = k >> 2;
+                uint64_t st = 4711 + (uint64_t)k + (uint64_t)vh_seed;
+                static char A[2048], X[2048], Y[2048];
+                static uint8_t ua[2048], ux[2048];
+                int r;
+                c->many = 1000 + k;
+                c->protein = 0;
+                c->type = KALIGN_TYPE_UNDEFINED;
+                sh_random_seq(&st, "ACGT", L, A);
+                for(r = 0; r < 2; r++){
+                        char* R = r ? Y : X;
+                        int skip = 5 + 9 * r, len = L - 21 - 31 * r, nsub = 0, pos = 2;
+                        memcpy(R, A + skip, (size_t)len);
+                        R[len] = 0;
+                        for(i = 0; i < L; i++){
+                                ua[i] = (uint8_t)A[i];
+                        }
+                        /* substitutions every 3rd position until the distance reaches the target exactly */
+                        for(;;){
+                                int d;
+                                for(i = 0; i < len; i++){
+                                        ux[i] = (uint8_t)R[i];
+                                }
+                                d = ed_substring(ua, L, ux, len);
+                                if(d >= target || pos >= len){
+                                        break;
+                                }
+                                {
+                                        int need = target - d, q;
+                                        for(q = 0; q < need && pos < len; q++, pos += 3){
+                                                R[pos] = R[pos] == 'A' ? 'C' : 'A';
+                                                nsub++;
+                                        }
+                                }
+                        }
+                }
+                if(layout == 0){
+                        kx_set_add(&c->in, A, "dupA_1");
+                        kx_set_add(&c->in, A, "dupA_2");
+                        kx_set_add(&c->in, X, "relX");
+                        kx_set_add(&c->in, Y, "relY");
+                }else{
+                        kx_set_add(&c->in, X, "relX");
+                        kx_set_add(&c->in, A, "dupA_1");
+                        kx_set_add(&c->in, Y, "relY");
+                        kx_set_add(&c->in, A, "dupA_2");
+                }
+                return;
         }
         /* many-sequence sets: n in {20,37,64,99}; 3..5 distinct base sequences; assignment pattern; kind */
         {
@@ -92,7 +148,7 @@ void vh_describe(uint64_t id, int tier, char* buf, size_t n)
         decode(id, tier, &c);
         o = (size_t)snprintf(buf, n, "type=%s %d sequences:", kx_type_name(c.type), c.in.n);
         for(i = 0; i < c.in.n && i < 8; i++){
-                o += (size_t)snprintf(buf + o, n - o, " \"%s\"", c.in.seq[i]);
+                o += (size_t)snprintf(buf + o, n - o, " \"%.24s%s\"", c.in.seq[i], c.in.len[i] > 24 ? "..." : "");
         }
         kx_set_free(&c.in);
 }
@@ -116,6 +172,11 @@ int vh_case(uint64_t id, int tier)
                 kx_set_free(&c.in);
                 vh_count("no_duplicate_in_tuple");
                 return VH_SKIP;
+        }
+        if(c.many >= 1000){
+                vh_case_timeout = 120;
+                alarm(120);
+                vh_count("long_sets_with_relatives_at_distance_256k");
         }
         vh_count("library_calls");
         if(kx_kalign_arr(&c.in, 1, c.type, -1.0f, -1.0f, -1.0f, &rows, &alen) != OK){
